@@ -69,6 +69,16 @@ chk("C06", "seqx", "model_checking",
     "Bounded depth (6-9 operations beyond the start states), 3-4 handlers; deletion counters near 2^32 are preset "
     "through the scheduler's counter dictionary; realloc failure is not driven.", "DESIGN.md §5/C06")
 
+chk("C13", "seqx", "model_checking",
+    "exhaustive enumeration of all extract / mutate / insert / extract-active sequences up to depth 4/5 on tree "
+    "shapes {2x0, 2x2, 1x3, 2x1, 3x2, 3x0} from three start states, each executed on a fresh real TreeStateHandler "
+    "and compared with a dict reference model (non-interference re-read of the global state and of every live "
+    "branch after every step)",
+    "Sequences are explored as a tree without state merging because aliasing defects make value-equal states behave "
+    "differently; every explored sequence is an implementation trace.",
+    "Depth <= 5, at most two simultaneously extracted branches, 2-D positions; mutation of already inserted branches "
+    "is outside the alphabet (the code aliases them by design).", "DESIGN.md §5/C13")
+
 ENGINES = [
     {"name": "seqx", "path": "jfv/checks/c06.py", "serves_properties": ["C06", "C13", "C11"],
      "kind_free_text": "explicit-state BFS over operation histories on real objects (rebuilt per transition) against "
